@@ -362,3 +362,94 @@ def ob_mono_instances(r, tier, seed):
 _obligations_74 = obligations
 def obligations():
     return _obligations_74() + [Ob('O7.5-call-site-instances', 'each call site of a generic function gets the instance of its own type arguments; no type parameter survives', ob_mono_instances, ('quick', 'thorough'), 5, {})]
+
+# ----------------------------------------------------------------------------- O7.6 no type parameter survives anywhere inside the body of an instance
+FORMS_76 = {'var': ('T', 'x'), 'tuple': ('(T, T)', '(x, x)'), 'array': ('[T; 2]', '[x, x]'), 'array-of-tuples': ('[(T, T); 1]', '[(x, x)]'), 'closure': ('(T) -> T', '|z: T| z'),
+            'let': ('T', '{ let w = x; w }'), 'if': ('T', 'if true { x } else { x }'), 'proj': ('T', '(x, x).0'),
+            'tuple-of-arrays': ('([T; 2], T)', '([x, x], x)'), 'closure-array': ('(T) -> [T; 1]', '|z: T| [z]')}
+def replay_body_types(form):
+    rt, ex_ = FORMS_76[form]
+    src = 'fn g[T](x: T) -> %s { %s }\nfn main() -> unit { let a = g(1); let b = g("s"); () }\n' % (rt, ex_)
+    d = tempfile.mkdtemp(prefix='vf-c07b-')
+    try:
+        open(os.path.join(d, 'main.gom'), 'w').write(src)
+        p = subprocess.run([build.compiler_bin(), 'run', '--dump-go', os.path.join(d, 'main.gom')], capture_output=True, text=True, timeout=60)
+    finally: shutil.rmtree(d, ignore_errors=True)
+    import re as _re
+    go = p.stdout
+    if '== Go ==' not in go and 'package main' not in go: return False, 'the replay program does not compile: ' + (p.stderr or go)[:200]
+    left = [l.strip() for l in go.splitlines() if _re.search(r'(?<![A-Za-z0-9_])T(?![A-Za-z0-9_])', l)]
+    return bool(left), 'goml `%s`: the emitted Go %s' % (src.replace('\n', ' | '), ('still names the type parameter: ' + ' | '.join(left[:3])) if left else 'names no type parameter')
+
+def ob_mono_body_types(r, tier, seed):
+    W = e2.fresh_world(CRATES); tt = W.tt; W.step_limit = 400000
+    TY = tt.find_adt(['tast', 'Ty'], 'compiler'); CE = tt.find_adt(['core', 'Expr'], 'compiler'); CF = tt.find_adt(['core', 'Fn'], 'compiler'); CFILE = tt.find_adt(['core', 'File'], 'compiler')
+    PR = tt.find_adt(['common', 'Prim'], 'compiler'); CP = tt.find_adt(['tast', 'ClosureParam'], 'compiler'); ME = [a for a in tt.by_name['MonoExpr'] if a.crate == 'compiler'][0]
+    r.bounds = 'the program `fn g[T](x: T) -> R { E }` with `g` called at int32 from main, E one of the expression forms %s (R the type of E); every type stored anywhere in the MonoFile returned by mono::mono is inspected' % sorted(FORMS_76)
+    r.assumptions = ['names::ty_compact replaced by an injective stand-in', 'oracle: no tast::Ty value reachable from the output (signatures, expression types, closure parameter types, literal types) is or contains a TParam']
+    def m_ty_compact(ex, a): return mkstr(json.dumps(shape(ex.deref(a[0]), TY), sort_keys=True).replace(' ', ''))
+    W.stubs['ty_compact'] = m_ty_compact
+    T = lambda n, *f: Agg(TY.key, TY.vindex(n), list(f))
+    E = lambda n, **kw: Agg(CE.key, CE.vindex(n), [kw[f[0]] for f in CE.variants[CE.vindex(n)].fields])
+    def fn(name, params, ret, body):
+        return Agg(CF.key, 0, [{'name': mkstr(name), 'generics': PyVec([]), 'params': PyVec([Agg('tuple', 0, [mkstr(n), t]) for n, t in params]), 'ret_ty': ret, 'body': body}[fl[0]] for fl in CF.variants[0].fields])
+    def find_params(v, path, out, depth=0):
+        from mirsym.engine import Ref as R_
+        if depth > 300: return
+        if isinstance(v, R_): return find_params(v.get(), path, out, depth + 1)
+        if isinstance(v, Agg):
+            if v.ty == 'Box': return find_params(unbox(v), path, out, depth + 1)
+            if v.ty == TY.key and TY.variants[v.idx].name == 'TParam': out.append('/'.join(path)); return
+            here = path + [ME.variants[v.idx].name] if v.ty == ME.key else path
+            for x in v.fields: find_params(x, here, out, depth + 1)
+        elif isinstance(v, PyVec):
+            for x in v.items: find_params(x, path, out, depth + 1)
+    def entry(ex):
+        form = ex.choose([(True, k) for k in sorted(FORMS_76)]); ex.notes['form'] = form
+        i32, un, bl = T('TInt32'), T('TUnit'), T('TBool'); tp = T('TParam', mkstr('T'))
+        tup = lambda ts: T('TTuple', PyVec(ts)); arr = lambda n, t: T('TArray', n, mkbox(t)); fun = lambda ps, r_: T('TFunc', PyVec(ps), mkbox(r_))
+        x = lambda: E('EVar', name=mkstr('x'), ty=tp); z = lambda: E('EVar', name=mkstr('z'), ty=tp)
+        clo = lambda body, rt_: E('EClosure', params=PyVec([Agg(CP.key, 0, [mkstr('z'), tp, ms.NONE()])]), body=mkbox(body), ty=fun([tp], rt_))
+        if form == 'var': e = x(); rt = tp
+        elif form == 'tuple': rt = tup([tp, tp]); e = E('ETuple', items=PyVec([x(), x()]), ty=rt)
+        elif form == 'array': rt = arr(2, tp); e = E('EArray', items=PyVec([x(), x()]), ty=rt)
+        elif form == 'array-of-tuples': rt = arr(1, tup([tp, tp])); e = E('EArray', items=PyVec([E('ETuple', items=PyVec([x(), x()]), ty=tup([tp, tp]))]), ty=rt)
+        elif form == 'tuple-of-arrays': rt = tup([arr(2, tp), tp]); e = E('ETuple', items=PyVec([E('EArray', items=PyVec([x(), x()]), ty=arr(2, tp)), x()]), ty=rt)
+        elif form == 'closure': rt = fun([tp], tp); e = clo(z(), tp)
+        elif form == 'closure-array': rt = fun([tp], arr(1, tp)); e = clo(E('EArray', items=PyVec([z()]), ty=arr(1, tp)), arr(1, tp))
+        elif form == 'let': rt = tp; e = E('ELet', name=mkstr('w'), value=mkbox(x()), body=mkbox(E('EVar', name=mkstr('w'), ty=tp)), ty=tp)
+        elif form == 'if': rt = tp; e = E('EIf', cond=mkbox(E('EPrim', value=Agg(PR.key, PR.vindex('Bool'), [True]), ty=bl)), then_branch=mkbox(x()), else_branch=mkbox(x()), ty=tp)
+        elif form == 'proj': rt = tp; e = E('EProj', tuple=mkbox(E('ETuple', items=PyVec([x(), x()]), ty=tup([tp, tp]))), index=0, ty=tp)
+        else:      # unused: a call of a local closure takes the `or_else` closure in mono_expr whose captured operand the textual MIR dump drops (DESIGN 5.2)
+            rt = tp; e = E('ELet', name=mkstr('f'), value=mkbox(clo(z(), tp)), body=mkbox(E('ECall', func=mkbox(E('EVar', name=mkstr('f'), ty=fun([tp], tp))), args=PyVec([x()]), ty=tp)), ty=tp)
+        g = fn('g', [('x', tp)], rt, e)
+        def inst(t):      # R[T := int32]
+            return build_ty(TY, subst_shape(shape(t, TY), {'T': {'k': 'TInt32'}}))
+        one = E('EPrim', value=Agg(PR.key, PR.vindex('Int32'), [1]), ty=i32)
+        rt_i = inst(rt)
+        call = E('ECall', func=mkbox(E('EVar', name=mkstr('g'), ty=fun([i32], rt_i))), args=PyVec([one]), ty=inst(rt))
+        main = fn('main', [], un, E('ELet', name=mkstr('a'), value=mkbox(call), body=mkbox(E('EPrim', value=Agg(PR.key, PR.vindex('Unit'), [ms.UNIT]), ty=un)), ty=un))
+        genv = ex.call('env::GlobalTypeEnv::new_empty', [])
+        from mirsym.engine import Limit, Panic
+        try: res = ex.call('mono::mono', [genv, Agg(CFILE.key, 0, [PyVec([g, main])])])
+        except Limit as e_: raise Panic('HANG-CANDIDATE: ' + str(e_))
+        out = []; nfn = len(res.fields[0].fields[0].items)
+        find_params(res.fields[0], [], out)
+        return form, out, nfn
+    res = e2.explore(r, W, entry, [])
+    for p in res:
+        r.cases += 1
+        if p.kind != 'ok':
+            if not any(f.key == 'panic' for f in r.findings): r.findings.append(Finding('panic', 'mono::mono panics / does not finish on form %s: %s' % ((p.notes or {}).get('form'), p.value[:160]), {}, False, 'not replayed'))
+            continue
+        form, left, nfn = p.value; r.nontrivial += 1
+        if left:
+            key = 'type-parameter-survives:' + form
+            try: ok_, detail = replay_body_types(form)
+            except Exception as e_: ok_, detail = False, 'replay failed: %s' % str(e_)[:160]
+            r.findings.append(Finding(key, 'form `%s` (`fn g[T](x: T) -> %s { %s }` at int32): the output of mono::mono still contains the type parameter at %s' % (form, FORMS_76[form][0], FORMS_76[form][1], sorted(set(left))[:4]), {'form': form}, ok_, detail))
+        elif len(r.samples) < 3: r.samples.append({'form': form, 'functions': nfn})
+
+_obligations_75 = obligations
+def obligations():
+    return _obligations_75() + [Ob('O7.6-instance-body-types', 'no type parameter survives in any type stored inside the body of an instance', ob_mono_body_types, ('quick', 'thorough'), 5, {})]
